@@ -219,7 +219,62 @@ def o_biterrors_mixed(case):
     return None
 
 
+def o_forms(case):
+    """R8 argument forms (keyword / positional, axis absent / None / given / negative), R9 scalar arguments of
+    every integer type incl. values above 256, R10 array against scalar"""
+    conv, misc, _ = _impl()
+    n = int(case['n'])
+    g = n ^ (n >> 1)
+    forms = [('int', n), ('np.int64', np.int64(n)), ('np.uint64', np.uint64(n)), ('0-d', np.array(n, dtype=np.int64))]
+    if n < 2 ** 31:
+        forms += [('np.int32', np.int32(n)), ('np.uint32', np.uint32(n))]
+    if n < 2 ** 15:
+        forms += [('np.int16', np.int16(n)), ('np.uint16', np.uint16(n))]
+    if n < 2 ** 7:
+        forms += [('np.int8', np.int8(n)), ('np.uint8', np.uint8(n))]
+    for name, v in forms:
+        for tag, got in (('binary2gray(v)', conv.binary2gray(v)), ('binary2gray(num=v)', conv.binary2gray(num=v))):
+            if np.shape(got) != () or int(got) != g:
+                return 'forms:%s:%s' % (tag, name), 'n=%d: got %r, n xor n>>1 = %d' % (n, got, g)
+        gv = type(v)(g) if not isinstance(v, np.ndarray) else np.array(g, dtype=v.dtype)
+        for tag, got in (('gray2binary(v)', conv.gray2binary(gv)), ('gray2binary(num=v)', conv.gray2binary(num=gv))):
+            if np.shape(got) != () or int(got) != n:
+                return 'forms:%s:%s' % (tag, name), 'gray %d: got %r, expected %d' % (g, got, n)
+    a = np.array(case['a'], dtype=np.int64).reshape(case['shape'])
+    b = np.array(case['b'], dtype=np.int64).reshape(case['shape'])
+    x = a ^ b
+    pc = np.vectorize(popcount)(x) if x.size else np.zeros(x.shape, dtype=int)
+    tot = int(pc.sum())
+    calls = [('(a, b)', lambda: misc.count_bit_errors(a, b), tot),
+             ('(a, b, None)', lambda: misc.count_bit_errors(a, b, None), tot),
+             ('(a, b, axis=None)', lambda: misc.count_bit_errors(a, b, axis=None), tot),
+             ('(first=a, second=b)', lambda: misc.count_bit_errors(first=a, second=b), tot),
+             ('(second=b, first=a)', lambda: misc.count_bit_errors(second=b, first=a), tot),
+             ('(copies)', lambda: misc.count_bit_errors(np.array(a.tolist(), dtype=int).reshape(a.shape),
+                                                        np.array(b.tolist(), dtype=int).reshape(b.shape)), tot)]
+    for ax in range(-a.ndim, a.ndim):
+        calls.append(('(a, b, %d)' % ax, (lambda ax=ax: misc.count_bit_errors(a, b, ax)), pc.sum(axis=ax)))
+        calls.append(('(a, b, axis=%d)' % ax, (lambda ax=ax: misc.count_bit_errors(a, b, axis=ax)), pc.sum(axis=ax)))
+    sc = int(case['scalar'])
+    pcs = np.vectorize(popcount)(a ^ sc) if a.size else np.zeros(a.shape, dtype=int)
+    calls += [('(a, int)', lambda: misc.count_bit_errors(a, sc), int(pcs.sum())),
+              ('(int, a)', lambda: misc.count_bit_errors(sc, a), int(pcs.sum())),
+              ('(a, np.int64)', lambda: misc.count_bit_errors(a, np.int64(sc)), int(pcs.sum())),
+              ('(int, int)', lambda: misc.count_bit_errors(n, sc), popcount(n ^ sc)),
+              ('(np.int64, np.int32)', lambda: misc.count_bit_errors(np.int64(n), np.int32(sc)), popcount(n ^ sc))]
+    for name, fcall, want in calls:
+        try:
+            got = fcall()
+        except Exception as e:
+            return 'forms:raises:count_bit_errors%s' % name, repr(e)[:200]
+        if np.shape(got) != np.shape(want) or not np.array_equal(np.asarray(got), np.asarray(want)):
+            return 'forms:count_bit_errors%s' % name, 'shape %s: got %r, Hamming distance %r' % (
+                a.shape, np.asarray(got).tolist(), np.asarray(want).tolist())
+    return None
+
+
 ORACLES = {
+    'forms': o_forms,
     'conversions.arrays': o_conv_arrays,
     'count_bit_errors.mixed': o_biterrors_mixed,
     'gray2binary': o_roundtrip,
@@ -377,6 +432,14 @@ def oracles(ctx, n_small, n_rand, psk_max, qam_max):
             b = [ctx.rng.below(1 << bb) for _ in range(n)]
             a[0], b[0] = (1 << ba) - 1, (1 << bb) - 1
             run_oracle(ctx, 'count_bit_errors.mixed', {'a': a, 'b': b, 'da': da, 'db': db}, key=('mixed', da, db))
+    for i in range(40):
+        bits = ctx.rng.choice([3, 7, 9, 12, 15, 20, 31, 40, 62])
+        n = [255, 256, 257, 300, 65535, 65536][i] if i < 6 else ctx.rng.below(1 << bits)
+        shape = ctx.rng.choice([[5], [2, 3], [2, 2, 2], [1], [0], [3, 0]])
+        k = int(np.prod(shape))
+        run_oracle(ctx, 'forms', {'n': n, 'shape': shape, 'a': [ctx.rng.below(1 << 20) for _ in range(k)],
+                                  'b': [ctx.rng.below(1 << 20) for _ in range(k)], 'scalar': ctx.rng.below(1 << 20)},
+                   key=('forms', i))
     run_oracle(ctx, 'QPSK.__init__', {}, key='qpsk')
     for shape in ([65535], [65536], [65537], [131072], [196608], [512, 256], [3, 65536], [100000]):
         run_oracle(ctx, 'count_bit_errors.long', {'shape': shape, 'seed': ctx.rng.below(1 << 30)}, key=('long', tuple(shape)))
